@@ -170,6 +170,28 @@ func (vn *vnode) handle(cmd *Cmd) *Rsp {
 		atomic.AddInt64(&vn.phase, 1)
 		rsp.Res = pb(res)
 	case "deliver":
+		if os.Getenv("RV_DELIVER") == "async" {
+			// the way the consensus engine drives the application: DeliverTxAsync + response callback
+			var seen *abci.ResponseDeliverTx
+			vn.cli.SetResponseCallback(func(req *abci.Request, res *abci.Response) {
+				if r := res.GetDeliverTx(); r != nil {
+					seen = r
+				}
+			})
+			rr := vn.cli.DeliverTxAsync(abci.RequestDeliverTx{Tx: cmd.Req})
+			if rr == nil || rr.Response == nil || rr.Response.GetDeliverTx() == nil {
+				rsp.Err = "DeliverTxAsync returned no response"
+				break
+			}
+			res := rr.Response.GetDeliverTx()
+			if seen == nil || string(pb(seen)) != string(pb(res)) {
+				rsp.Err = "DeliverTxAsync: the response callback saw another response than the request object carries"
+				break
+			}
+			atomic.AddInt64(&vn.phase, 1)
+			rsp.Res = pb(res)
+			break
+		}
 		res, err := vn.cli.DeliverTxSync(abci.RequestDeliverTx{Tx: cmd.Req})
 		if err != nil {
 			rsp.Err = err.Error()
@@ -199,6 +221,16 @@ func (vn *vnode) handle(cmd *Cmd) *Rsp {
 		atomic.AddInt64(&vn.phase, 1)
 		rsp.Res = pb(res)
 	case "check":
+		if os.Getenv("RV_DELIVER") == "async" {
+			vn.cli.SetResponseCallback(func(req *abci.Request, res *abci.Response) {})
+			rr := vn.cli.CheckTxAsync(abci.RequestCheckTx{Tx: cmd.Req, Type: abci.CheckTxType_New})
+			if rr == nil || rr.Response == nil || rr.Response.GetCheckTx() == nil {
+				rsp.Err = "CheckTxAsync returned no response"
+				break
+			}
+			rsp.Res = pb(rr.Response.GetCheckTx())
+			break
+		}
 		res, err := vn.cli.CheckTxSync(abci.RequestCheckTx{Tx: cmd.Req, Type: abci.CheckTxType_New})
 		if err != nil {
 			rsp.Err = err.Error()
